@@ -67,6 +67,14 @@ func pathsN(forms []gen.Step, n int) []*gen.Path {
 	return out
 }
 
+func stridePaths(p []*gen.Path, k int) []*gen.Path {
+	var out []*gen.Path
+	for i := 0; i < len(p); i += k {
+		out = append(out, p[i])
+	}
+	return out
+}
+
 // threeStep: every 3-step path over the 12 axes with tests {node(), a} joined
 // by '/', relative and absolute-with-//.
 func threeStep() []*gen.Path {
@@ -302,12 +310,15 @@ func init() {
 					pathSpace("C01", "S2xT4", "2-step paths x T(<=4)", pathsN(forms, 2), func() []*doc.Tree { return uniT(4) }, both, "set"),
 					pathSpace("C01", "S3xT3", "3-step paths over tests {a,*,node()} x T(<=3)", pathsN(red, 3), func() []*doc.Tree { return uniT(3) }, []string{"select"}, "set"),
 					pathSpace("C01", "S1xT5", "1-step paths x T(=5)", pathsN(forms, 1), func() []*doc.Tree { return uniTExact(5) }, both, "set"),
+					pathSpace("C01", "S2xDeep7", "2-step paths x spine documents of depth 4..7", pathsN(forms, 2), func() []*doc.Tree { return uniDeep(7) }, []string{"select"}, "set"),
 				}
 			}
 			return []*explore.Space{
 				pathSpace("C01", "S1xT3", "1-step paths x T(<=3)", pathsN(forms, 1), func() []*doc.Tree { return uniT(3) }, both, "set"),
 				pathSpace("C01", "S2xT3", "2-step paths x T(<=3)", pathsN(forms, 2), func() []*doc.Tree { return uniT(3) }, both, "set"),
 				pathSpace("C01", "S3qxT3", "3-step paths over 12 axes x tests {node(), a}, '/' separators, relative and after // x T(<=3)", threeStep(), func() []*doc.Tree { return uniT(3) }, []string{"select"}, "set"),
+				pathSpace("C01", "S1xDeep6", "1-step paths x spine documents of depth 4..6", pathsN(forms, 1), func() []*doc.Tree { return uniDeep(6) }, both, "set"),
+				pathSpace("C01", "S2/8xDeep6", "fixed stratum (every 8th) of 2-step paths x spine documents of depth 4..6", stridePaths(pathsN(forms, 2), 8), func() []*doc.Tree { return uniDeep(6) }, []string{"select"}, "set"),
 			}
 		},
 	})
